@@ -503,6 +503,37 @@ func checkC14(r *core.Run) {
 			}
 		}
 	}
+	// an action after a recursive call: the recursion's base case has entered the query, so the data must be fully encoded
+	// (or the template refused); the analyser may not treat it as if it still followed the prefix of the first call
+	for ci, cl := range c14Cells {
+		text := `{{define "r"}}{{if .}}{{template "r" (slice . 1)}}{{index . 0}}{{else}}?q={{end}}{{end}}` + cl.open + cl.attr + "=\"/p{{template \"r\" $.L}}\"" + cl.close
+		sharedProgs++
+		p, _ := tmplx.Prepare(text)
+		if p == nil {
+			continue
+		}
+		for _, d := range cdata {
+			dd := tmplx.Data{L: []interface{}{d}}
+			res := p.Exec(&dd)
+			atomic.AddInt64(&execs, 1)
+			if res.Kind != tmplx.OK {
+				continue
+			}
+			i := strings.Index(res.Out, "/p?q=")
+			if i < 0 {
+				continue
+			}
+			rest := res.Out[i+len("/p?q="):]
+			if j := strings.IndexByte(rest, '"'); j >= 0 {
+				rest = rest[:j]
+			}
+			rest = stdhtml.UnescapeString(rest)
+			if !cl.trurl && rfc3986.LowerEscapes(rest) != rfc3986.Encode(d) {
+				r.Witness("query-not-fully-encoded", "action-after-recursive-call "+c14Cells[ci].name, text+"\x00"+d,
+					fmt.Sprintf("program %s with data %s: the recursion has written ?q= before the data, which must be fully percent-encoded (%q), got %q (output %s)", core.Q(text), core.Q(d), rfc3986.Encode(d), rest, core.Q(res.Out)), nil)
+			}
+		}
+	}
 	r.Set("shared_helper_programs", sharedProgs)
 	r.Set("prefix_after_action_programs", afterAction)
 	r.Set("typed_after_prefix_programs", typedProgs)
